@@ -13,7 +13,8 @@ Record ioracle := IOr {
   circ_far : bool;        (* PASS 2A : interior-point distance > circumradii about the interior points *)
   bbox_overlap : bool;    (* PASS 2B : axis-aligned bounding boxes overlap in all 3 dimensions *)
   surf_collide : bool;    (* PASS 3  : FCL reports a collision *)
-  both_convex : bool;
+  a_convex : bool;        (*           A.isConvex *)
+  b_convex : bool;        (*           B.isConvex  (the early exit needs BOTH: FCL treats only Convex geometry as solid) *)
   single_bodies : bool;   (* PASS 4  : both meshes have one body *)
   a_has_b_point : bool;   (*           A contains B's interior point *)
   b_has_a_point : bool;
@@ -28,7 +29,19 @@ Definition intersects_vol (o : ioracle) : bool * ipass :=
   if both_scaled o && circ_far o then (false, IP2A_out) else
   if negb (both_scaled o) && negb (bbox_overlap o) then (false, IP2B) else
   if surf_collide o then (true, IP3_hit) else
-  if both_convex o then (false, IP3_convex) else
+  if a_convex o && b_convex o then (false, IP3_convex) else
+  if single_bodies o then (a_has_b_point o || b_has_a_point o, IP4) else
+  (bool_nonempty o, IP5).
+
+(* the same cascade with the early exit of PASS 3 taken when EITHER region is convex (a plausible
+   "optimisation"; seeded bug class C04-2 / C02-1): refuted below by [convex_or_exit_refuted] *)
+Definition intersects_vol_or (o : ioracle) : bool * ipass :=
+  if centre_far o then (false, IP1) else
+  if both_scaled o && in_near o then (true, IP2A_in) else
+  if both_scaled o && circ_far o then (false, IP2A_out) else
+  if negb (both_scaled o) && negb (bbox_overlap o) then (false, IP2B) else
+  if surf_collide o then (true, IP3_hit) else
+  if a_convex o || b_convex o then (false, IP3_convex) else
   if single_bodies o then (a_has_b_point o || b_has_a_point o, IP4) else
   (bool_nonempty o, IP5).
 
@@ -83,7 +96,7 @@ Section IntersectsCorrect.
   Hypothesis H_circ_far : both_scaled o = true -> circ_far o = true -> ~ meets.
   Hypothesis H_bbox : bbox_overlap o = false -> ~ meets.
   Hypothesis H_fcl_hit : surf_collide o = true -> meets.                       (* FCL: a reported collision is real *)
-  Hypothesis H_fcl_convex : both_convex o = true -> surf_collide o = false -> ~ meets. (* FCL convex-convex is complete *)
+  Hypothesis H_fcl_convex : a_convex o = true -> b_convex o = true -> surf_collide o = false -> ~ meets. (* FCL convex-convex is complete *)
   Hypothesis H_single : surf_collide o = false -> single_bodies o = true ->
     (meets <-> a_has_b_point o = true \/ b_has_a_point o = true).            (* connected, surfaces apart: nested or disjoint *)
   Hypothesis H_boolean : bool_nonempty o = true <-> meets.                     (* manifold boolean is exact *)
@@ -100,8 +113,9 @@ Section IntersectsCorrect.
       { split; [discriminate | intro M; exfalso; exact (H_circ_far eq_refl eq_refl M)]. }
       destruct (surf_collide o) eqn:E4; cbn [fst].
       { split; [intros _; apply H_fcl_hit; reflexivity | reflexivity]. }
-      destruct (both_convex o) eqn:E5; cbn [fst].
-      { split; [discriminate | intro M; exfalso; exact (H_fcl_convex eq_refl eq_refl M)]. }
+      destruct (a_convex o && b_convex o) eqn:E5; cbn [fst].
+      { apply andb_true_iff in E5. destruct E5 as [Ea Eb].
+        split; [discriminate | intro M; exfalso; exact (H_fcl_convex Ea Eb eq_refl M)]. }
       destruct (single_bodies o) eqn:E6; cbn [fst].
       { rewrite orb_true_iff. symmetry. apply H_single; reflexivity. }
       exact H_boolean.
@@ -109,8 +123,9 @@ Section IntersectsCorrect.
       2:{ split; [discriminate | intro M; exfalso; exact (H_bbox eq_refl M)]. }
       destruct (surf_collide o) eqn:E4; cbn [fst].
       { split; [intros _; apply H_fcl_hit; reflexivity | reflexivity]. }
-      destruct (both_convex o) eqn:E5; cbn [fst].
-      { split; [discriminate | intro M; exfalso; exact (H_fcl_convex eq_refl eq_refl M)]. }
+      destruct (a_convex o && b_convex o) eqn:E5; cbn [fst].
+      { apply andb_true_iff in E5. destruct E5 as [Ea Eb].
+        split; [discriminate | intro M; exfalso; exact (H_fcl_convex Ea Eb eq_refl M)]. }
       destruct (single_bodies o) eqn:E6; cbn [fst].
       { rewrite orb_true_iff. symmetry. apply H_single; reflexivity. }
       exact H_boolean.
@@ -191,12 +206,34 @@ End FootprintCorrect.
 
 (* non-vacuity / reachability: every exit of the cascade is taken by some oracle valuation *)
 Example every_pass_reachable :
-  snd (intersects_vol (IOr true false false false false false false false false false false)) = IP1 /\
-  snd (intersects_vol (IOr false true true false false false false false false false false)) = IP2A_in /\
-  snd (intersects_vol (IOr false true false true false false false false false false false)) = IP2A_out /\
-  snd (intersects_vol (IOr false false false false false false false false false false false)) = IP2B /\
-  snd (intersects_vol (IOr false true false false true true false false false false false)) = IP3_hit /\
-  snd (intersects_vol (IOr false true false false true false true false false false false)) = IP3_convex /\
-  snd (intersects_vol (IOr false true false false true false false true true false false)) = IP4 /\
-  snd (intersects_vol (IOr false true false false true false false false false false true)) = IP5.
+  snd (intersects_vol (IOr true false false false false false false false false false false false)) = IP1 /\
+  snd (intersects_vol (IOr false true true false false false false false false false false false)) = IP2A_in /\
+  snd (intersects_vol (IOr false true false true false false false false false false false false)) = IP2A_out /\
+  snd (intersects_vol (IOr false false false false false false false false false false false false)) = IP2B /\
+  snd (intersects_vol (IOr false true false false true true false false false false false false)) = IP3_hit /\
+  snd (intersects_vol (IOr false true false false true false true true false false false false)) = IP3_convex /\
+  snd (intersects_vol (IOr false true false false true false true false true true false false)) = IP4 /\
+  snd (intersects_vol (IOr false true false false true false false false false false false true)) = IP5.
 Proof. repeat split. Qed.
+
+(* the convex early exit needs BOTH regions convex: with "either", a convex object strictly inside one arm of a
+   non-convex single-body object (no surface contact, B contains A's interior point, exact boolean non-empty) satisfies
+   every hypothesis of [cascade_correct] and yet is reported disjoint *)
+Definition nested_witness : ioracle :=
+  IOr false true false false true false true false true false true true.
+
+Theorem convex_or_exit_refuted : exists (meets : Prop) (o : ioracle),
+  (centre_far o = true -> ~ meets) /\
+  (both_scaled o = true -> in_near o = true -> meets) /\
+  (both_scaled o = true -> circ_far o = true -> ~ meets) /\
+  (bbox_overlap o = false -> ~ meets) /\
+  (surf_collide o = true -> meets) /\
+  (a_convex o = true -> b_convex o = true -> surf_collide o = false -> ~ meets) /\
+  (surf_collide o = false -> single_bodies o = true ->
+     (meets <-> a_has_b_point o = true \/ b_has_a_point o = true)) /\
+  (bool_nonempty o = true <-> meets) /\
+  meets /\ fst (intersects_vol_or o) = false /\ fst (intersects_vol o) = true.
+Proof.
+  exists True, nested_witness. cbn.
+  repeat split; try discriminate; try tauto; auto.
+Qed.
